@@ -76,6 +76,37 @@ pub struct Acc {
     pub sample_cap: usize,
 }
 
+/// replaces the digits of every number inside quotes / braces of a panic message by `#`; the `file.rs:LINE` suffix is kept
+fn mask_numbers(key: &str) -> String {
+    let (head, tail) = match key.rfind(" @ ") {
+        Some(i) => (&key[..i], &key[i..]),
+        None => (key, ""),
+    };
+    let mut out = String::with_capacity(key.len());
+    // "trap-site: file.rs:LINE [message]" form: keep the location in front as it is
+    let head = match (tail.is_empty(), head.find(" [")) {
+        (true, Some(i)) => {
+            out.push_str(&head[..i]);
+            &head[i..]
+        }
+        _ => head,
+    };
+    let mut run = 0usize;
+    for ch in head.chars() {
+        if ch.is_ascii_digit() {
+            run += 1;
+            if run == 1 {
+                out.push('#');
+            }
+        } else {
+            run = 0;
+            out.push(ch);
+        }
+    }
+    out.push_str(tail);
+    out
+}
+
 impl Acc {
     pub fn new(shard: u64) -> Self {
         Acc { shard, sample_cap: 4, ..Default::default() }
@@ -84,6 +115,13 @@ impl Acc {
         *self.counters.entry(key.to_string()).or_insert(0) += 1;
     }
     pub fn add(&mut self, key: &str, n: u64) {
+        if key.starts_with("trap-site:") {
+            // panic messages carry operand values; mask every run of 3+ digits so that one site is one counter
+            // (the evidence file has to stay small), keeping short numbers such as line numbers of 1-2 digits
+            let k = mask_numbers(key);
+            *self.counters.entry(k).or_insert(0) += n;
+            return;
+        }
         *self.counters.entry(key.to_string()).or_insert(0) += n;
     }
     pub fn get(&self, key: &str) -> u64 {
